@@ -40,7 +40,19 @@ def space(size: int, pool_n: int):
     from . import bridge
     S = list(bridge.repo_universe(size))
     inst, _ = notation_instances(pool_n)
-    return S + inst
+    P = bridge.P
+    from frozendict import frozendict
+    # partial, empty and re-ordered applications of notation definitions (built by instantiate_pattern, not by Notation.__call__)
+    odd = []
+    for d in (P.neg.definition, P._and.definition, P.Implies(P.MetaVar(0), P.MetaVar(1))):
+        odd += [P.Instantiate(d, frozendict()), P.Instantiate(d, frozendict({0: P.EVar(0)})), P.Instantiate(d, frozendict({1: P.EVar(0)})),
+                P.Instantiate(d, frozendict({1: P.EVar(1), 0: P.EVar(0)})), P.Instantiate(d, frozendict({0: P.EVar(0), 1: P.EVar(1)})),
+                P.Instantiate(d, frozendict({0: P.EVar(0), 1: P.MetaVar(1)}))]
+    # definitions that mention a variable freely (no shipped notation does; user-defined ones may)
+    pin = P.Notation('pin', 1, P.Implies(P.EVar(1), P.MetaVar(0)), 'pin({0})')
+    odd += [P.Instantiate(P.Implies(P.EVar(1), P.MetaVar(0)), frozendict({0: P.Symbol('s0')})), pin(P.EVar(0)), pin(P.MetaVar(1)),
+            P.Instantiate(P.Exists(0, P.App(P.EVar(1), P.MetaVar(0))), frozendict({0: P.EVar(0)})), P.neg(pin(P.bot()))]
+    return S + inst + odd
 
 
 def canon(x):
